@@ -4,9 +4,11 @@ Engine: SimNet.  The real web stack (`circuits.web.Server` = TCPServer + HTTP + 
 simulated sockets under a real poller; the clients are harness `Peer`s that speak HTTP by hand and read at a drawn pace.
 
 Workload (all from the tape): a Controller with 1-5 exposed methods, each with a drawn *shape* - returns str / bytes / list of str+bytes /
-is a generator function / returns a generator (both with '' chunks) / returns a binary or text file object / returns or assigns a file-LIKE object whose read(n)
+is a generator function / returns a generator (both with '' chunks) - the four returning shapes also with `response.stream = True` switched on
+first (shape `sized+stream`: streaming on, yet a result of known size) / returns a binary or text file object / returns or assigns a file-LIKE object whose read(n)
 delivers drawn short reads (a stream: 1..n bytes per call, b'' at the end; with `response.stream` left on or switched off) / sets
-`response.body = generator` with `response.stream` on or off / keeps the response open and pushes `stream` events later / sets a status of any class / 1xx-204-304 with nothing /
+`response.body = generator` with `response.stream` on or off / keeps the response open and pushes `stream` events later / sets a status of any class / 1xx-204-304 with nothing or
+(shape `nobody+body`) with a str / bytes / list / generator result all the same /
 returns or raises every kind of error and redirect - with sizes from 0 to beyond the socket send buffer; requests GET/HEAD x HTTP/1.0/1.1 x
 Connection keep-alive/close/absent, request targets in canonical and non-canonical form (`/x/../m0`, `/./m0`, `//m0`, `/%6d0`, `/m0//` ...: the
 server itself answers those, today with a 301 to the canonical URL), in sequences on 1-3 connections at once (a connection's next request is sent only after its previous
@@ -67,8 +69,11 @@ STUBBED = ['socket -> SimSocket over AF_UNIX (simcore/simnet.py)', 'select modul
            '.formatdate rebound to the virtual clock', 'circuits.web.servers.stderr -> sink', 'clients = harness Peer objects with a hand-written HTTP encoder']
 ASSUMPTIONS = ['requests are delivered whole and are well-formed (segmentation and malformed input are C13/C14)',
                'no pipelining: the next request on a connection is sent after the previous response is complete and the server is quiescent',
-               'the application never sets Content-Length / Transfer-Encoding / Connection itself and produces no body for 1xx/204/304',
-               '`response.stream = True` is only combined with an iterator body or with later `stream` events (with a str/list body the server loops on 500s: outside the statement)',
+               'the application never sets Content-Length / Transfer-Encoding / Connection itself',
+               '`response.stream = True` together with a returned str / bytes / generator is only used with a non-empty result: with an empty one the response is the push idiom '
+               '(streaming on, no body yet, data follows in `stream` events) and staying open is what the application asked for',
+               'a handler that sets 1xx / 204 / 304 and returns a body all the same: the statement demands that the response carries no body, nothing else is asked of it '
+               '(a Content-Length header on such a response is accepted, RFC 7230 3.3.3 makes clients ignore it)',
                'generators yield at least one value (a generator handler that yields nothing is never answered at all: outside "every response the server writes")',
                'stream events of the push idiom start after `response_success`, carry non-empty data and are only used for GET',
                'error pages: only status, framing and the presence of the application\'s description are judged, not the page text',
@@ -82,7 +87,8 @@ PROBES = ['resp-checked', 'resp-checked:fault-free', 'resp-checked:faulty', 'kee
           'method:HEAD', 'http10', 'closed-by-server', 'kept-open', 'real-partial-send', 'peer:stall', 'peer:slow', 'fault:short_write',
           'fault:transient_send_error', 'overlap', 'body>sndbuf', 'empty-chunk', 'nonascii', 'second-opinion', 'run:fault-free', 'run:faulty',
           'cfg:Select', 'cfg:Poll', 'cfg:EPoll', 'kind:str', 'kind:bytes', 'kind:list', 'kind:genfunc', 'kind:genret', 'kind:file', 'kind:textfile',
-          'kind:stream', 'kind:nobody', 'kind:error', 'kind:sfile', 'kind:bodygen', 'non-canonical-path', 'further-request-after-redirect',
+          'kind:stream', 'kind:nobody', 'kind:error', 'kind:sfile', 'kind:bodygen', 'sized+stream', 'sized+stream:str', 'sized+stream:bytes', 'sized+stream:list',
+          'sized+stream:genret', 'nobody+body', 'nobody+body:204', 'nobody+body:304', 'nobody+body:1xx', 'non-canonical-path', 'further-request-after-redirect',
           'short-read-fileobj', 'short-read-fileobj:return', 'short-read-fileobj:body', 'short-read-fileobj:body-nostream', 'status-class:1', 'status-class:2', 'status-class:3', 'status-class:4', 'status-class:5']
 TIERS = {
     'quick': dict(runs=30000, wall=26, chunk=25, cfg=dict(max_requests=5, sizes=0, round_cap=6000)),
@@ -98,6 +104,9 @@ K_STREAM_E0L = 'C15/leftover/stream+empty-first'
 K_PUSH = 'C15/body/push/length'
 K_UNSTREAMED_E = 'C15/unanswered/unstreamed-iterator+empty/incomplete-response'
 K_UNSTREAMED_E2 = 'C15/malformed/truncated/unstreamed-iterator+empty'
+# one root cause, three symptoms: a 500 page where the body should be (small results) / behind an empty body / a connection that ends inside the body (large ones)
+K_SIZED_STREAM = ('C15/body/sized+stream/length', 'C15/leftover/sized+stream', 'C15/malformed/truncated/sized+stream')
+K_NOBODY_BODY = 'C15/leftover/nobody+body'
 
 KINDS = ['str', 'bytes', 'list', 'genfunc', 'genret', 'file', 'textfile', 'stream', 'nobody', 'error', 'push', 'sfile', 'bodygen']
 KIND_W = [6, 3, 4, 3, 3, 3, 2, 4, 2, 4, 1, 5, 2]
@@ -107,6 +116,8 @@ SIZES = [[40, 0, 1, 5, 300, 4095, 4096, 4097, 9000, 20000, 70000], [40, 0, 1, 5,
 SIZE_W = [[4, 3, 2, 3, 4, 1, 2, 1, 3, 2, 1], [4, 3, 2, 3, 4, 1, 2, 1, 3, 2, 2, 1]]
 STATUSES = [201, 202, 203, 206, 299, 300, 302, 400, 402, 404, 410, 413, 500, 503]
 NOBODY = [204, 304, 100, 101, 102]
+NOBODY_VALUES = ['str', 'bytes', 'list', 'genret', 'bodygen']     # what a handler that set such a status returns all the same
+SIZED = ('str', 'bytes', 'list', 'genret')                        # results whose size the server knows when it writes the header section
 ERR_SUBS = ['none', 'forbidden', 'notfound', 'httperror', 'redirect', 'raise_http', 'raise_redirect', 'raise_plain']
 RAISE = ['NotFound', 'Forbidden', 'BadRequest', 'Unauthorized', 'Gone', 'InternalServerError', 'ServiceUnavailable', 'RequestEntityTooLarge']
 REDIRECT_CODES = [None, 301, 302, 303, 307, 308, 304, 305]
@@ -156,15 +167,35 @@ def text_for(marker, n, nonascii):
     return (unit * (n // 997 + 1))[:n]
 
 
+def draw_pieces(ch):
+    """How a body is cut into chunks: ('text', as bytes?, weight) pieces with ('empty', as bytes?) ones in between."""
+    pieces = []
+    for i in range(ch.randint(1, 5, 'pieces')):
+        if ch.chance(1, 4, 'empty-chunk'):
+            pieces.append(('empty', ch.chance(1, 2, 'empty-bytes')))
+        pieces.append(('text', ch.chance(1, 3, 'as-bytes'), ch.randint(1, 8, 'piece-weight')))
+    if ch.chance(1, 6, 'empty-last'):
+        pieces.append(('empty', False))
+    return pieces
+
+
 def gen_spec(ch, avoid, sizes):
     kinds, w = list(KINDS), list(KIND_W)
     if K_PUSH in avoid:
         w[kinds.index('push')] = 0
     kind = kinds[ch.weighted(w, 'shape')]
-    spec = dict(kind=kind, size=0, nonascii=False, status=None, pieces=None, sub=None, code=None, cls=None, gap=0, empty_first=False, reads=None, how=None, textmode=False)
+    spec = dict(kind=kind, size=0, nonascii=False, status=None, pieces=None, sub=None, code=None, cls=None, gap=0, empty_first=False, reads=None, how=None, textmode=False, stream_on=False)
     if kind == 'nobody':
         spec['status'] = ch.choice(NOBODY, 'nobody-status')
-        spec['sub'] = ch.choice(['str', 'bytes', 'list'], 'nobody-value')
+        if ch.chance(1, 2, 'nobody-with-body') and K_NOBODY_BODY not in avoid:
+            # "HEAD, 1xx, 204 and 304 responses carry no body" - whatever the handler returned
+            spec['sub'] = ch.choice(NOBODY_VALUES, 'nobody-value')
+            spec['size'] = SIZES[sizes][ch.weighted(SIZE_W[sizes], 'size')] or 11
+            spec['nonascii'] = ch.chance(1, 3, 'non-ascii')
+            if spec['sub'] in ('list', 'genret', 'bodygen'):
+                spec['pieces'] = draw_pieces(ch)
+        else:
+            spec['sub'] = ch.choice(NOBODY_VALUES[:3], 'nobody-value')
         return spec
     if kind == 'error':
         subs = [s for s in ERR_SUBS if not (K_DUP_ERROR in avoid and s.startswith('raise_'))]
@@ -180,6 +211,12 @@ def gen_spec(ch, avoid, sizes):
     spec['nonascii'] = ch.chance(1, 3, 'non-ascii')
     if kind != 'genfunc' and ch.chance(1, 4, 'set-status'):    # a generator function cannot reach self.response any more when it runs
         spec['status'] = ch.choice(STATUSES, 'status')
+    if kind in SIZED and ch.chance(1, 5, 'stream-on') and not any(k in avoid for k in K_SIZED_STREAM):
+        # "streaming on/off" x "every handler result type": streaming switched on, yet the result is one of known size
+        spec['stream_on'] = True
+        if kind != 'list':
+            # an empty str / bytes result (also: the only, empty, chunk of a returned generator) leaves the response as the push idiom has it (see ASSUMPTIONS)
+            spec['size'] = spec['size'] or 1
     if kind == 'sfile':
         spec['how'] = ch.choice(['return', 'body', 'body-nostream'], 'fileobj-use')
         spec['textmode'] = ch.chance(1, 4, 'text-mode')
@@ -188,15 +225,7 @@ def gen_spec(ch, avoid, sizes):
     if spec['size'] == 0 and (kind == 'bodygen' or spec['how'] == 'body-nostream') and (K_UNSTREAMED_E in avoid or K_UNSTREAMED_E2 in avoid):
         spec['size'] = 1
     if kind in ('list', 'genfunc', 'genret', 'stream', 'push', 'bodygen'):
-        n = ch.randint(1, 5, 'pieces')
-        pieces = []
-        for i in range(n):
-            if ch.chance(1, 4, 'empty-chunk'):
-                pieces.append(('empty', ch.chance(1, 2, 'empty-bytes')))
-            pieces.append(('text', ch.chance(1, 3, 'as-bytes'), ch.randint(1, 8, 'piece-weight')))
-        if ch.chance(1, 6, 'empty-last'):
-            pieces.append(('empty', False))
-        spec['pieces'] = pieces
+        spec['pieces'] = draw_pieces(ch)
         # the first chunk the iterator will deliver is empty ('' piece, or a text piece that gets no character)
         spec['empty_first'] = not chunks_for(spec, text_for('K00Z', spec['size'], ':'), 'utf-8')[0]
         if kind == 'stream' and spec['empty_first'] and (K_STREAM_E0 in avoid or K_STREAM_E0L in avoid):
@@ -208,6 +237,10 @@ def gen_spec(ch, avoid, sizes):
 
 def shape_of(spec):
     s = spec['kind']
+    if spec['stream_on']:
+        s = 'sized+stream'                    # response.stream switched on, the result is a str / bytes / list / returned generator
+    if s == 'nobody' and spec['size']:
+        s = 'nobody+body'                     # 1xx / 204 / 304 set by the handler, which returns a body all the same
     if s == 'error':
         s = 'error-' + spec['sub']
     if s == 'stream' and spec['empty_first']:
@@ -371,16 +404,21 @@ def _run(ctx):
         else:
             def meth(self, k=''):
                 pre(self, k)
+                vk = kind
                 if kind == 'nobody':
-                    return {'str': '', 'bytes': b'', 'list': []}[spec['sub']]
+                    if not spec['size']:
+                        return {'str': '', 'bytes': b'', 'list': []}[spec['sub']]
+                    vk = spec['sub']
+                if spec['stream_on']:
+                    self.response.stream = True
                 t = text(k)
-                if kind == 'str':
+                if vk == 'str':
                     return t
-                if kind == 'bytes':
+                if vk == 'bytes':
                     return t.encode(enc)
-                if kind == 'list':
+                if vk == 'list':
                     return chunks_for(spec, t, enc)
-                if kind == 'genret':
+                if vk == 'genret':
                     return (c for c in chunks_for(spec, t, enc))
                 if kind == 'file':
                     return io.BytesIO(t.encode(enc))
@@ -395,7 +433,7 @@ def _run(ctx):
                     if spec['how'] == 'body-nostream':
                         res.stream = False          # the application prefers the whole body in one piece
                     return res
-                if kind == 'bodygen':               # an iterator body without streaming
+                if vk == 'bodygen':                 # an iterator body without streaming
                     res.body = (c for c in chunks_for(spec, t, enc))
                     return res
                 res.stream = True
@@ -424,8 +462,9 @@ def _run(ctx):
     Root().register(srv)
     PushApp().register(srv)
     for i, s in enumerate(specs):
-        ctx.trace('method /m%d: %s size=%d status=%s%s%s%s' % (i, shape_of(s), s['size'], s['status'] or s['code'] or s['cls'] or '-',
-                                                              ' non-ascii' if s['nonascii'] else '', ' pieces=%r' % (s['pieces'],) if s['pieces'] else '',
+        ctx.trace('method /m%d: %s%s size=%d status=%s%s%s%s' % (i, shape_of(s), ' (response.stream = True; returns %s)' % s['kind'] if s['stream_on'] else
+                                                                ' (returns %s)' % s['sub'] if s['kind'] == 'nobody' and s['size'] else '', s['size'], s['status'] or s['code'] or s['cls'] or '-',
+                                                                ' non-ascii' if s['nonascii'] else '', ' pieces=%r' % (s['pieces'],) if s['pieces'] else '',
                                                               ' file-like (%s, %s), read() delivers at most %r' % (s['how'], 'text' if s['textmode'] else 'binary', s['reads']) if s['reads'] else ''))
     ctx.trace('server: %s, SO_SNDBUF=%s, encoding=%s, faults=%s rate 1/%d' % (poller.__name__, NET.sndbuf, enc, sorted(pol.kinds) or 'none', pol.rate))
 
@@ -584,6 +623,13 @@ def _run(ctx):
         ctx.stat('framing:' + resp.framing)
         ctx.stat('kind:' + spec['kind'])
         ctx.stat('status-class:%d' % (resp.status // 100))
+        own = xm == r['marker']          # the handler itself answered (not the server on behalf of a non-canonical target)
+        if own and r['method'] != 'HEAD' and spec['stream_on']:
+            ctx.stat('sized+stream')
+            ctx.stat('sized+stream:' + spec['kind'])
+        if own and r['method'] != 'HEAD' and spec['kind'] == 'nobody' and spec['size']:
+            ctx.stat('nobody+body')
+            ctx.stat('nobody+body:%s' % (resp.status if resp.status >= 200 else '1xx'))
         if r['nth'] > 0:
             ctx.stat('keepalive-reuse')
             prev = c['hist'][r['nth'] - 1]
@@ -686,6 +732,9 @@ def _run(ctx):
                     note = ' (a second response: status %d, %d body bytes)' % (second.status, len(second.body))
             except Malformed:
                 pass
+            if resp.framing == 'none' and r['method'] != 'HEAD':
+                # "HEAD, 1xx, 204 and 304 responses carry no body"
+                note += ' (a %d response ends after its header section, whatever Content-Length says: this is a body it must not carry)' % resp.status
             cls = 'error-raised' if (r['spec']['sub'] or '').startswith('raise_') else shape
             return failr(r, 'C15/leftover/%s' % cls, 'request %s: %d bytes follow the end of its response %r%s: %r' % (describe(r), len(extra), resp, note, extra[:160]))
         # "the connection is closed iff the response announces it"
